@@ -1,0 +1,367 @@
+//! Verification hooks. Compiled only with `--cfg scylla_verif`; never part of
+//! a normal build. Everything here is either
+//!  * a pass-through to a crate-private item, so that an external harness can
+//!    drive the real code, or
+//!  * an observation / perturbation point (event sink, pause points, clock
+//!    override) that is a no-op until the harness installs a callback.
+#![allow(missing_docs, unreachable_pub, unnameable_types, clippy::type_complexity)]
+
+use std::collections::HashMap;
+use std::future::Future;
+use std::net::SocketAddr;
+use std::sync::atomic::{AtomicBool, Ordering};
+use std::sync::{Arc, RwLock};
+use std::time::Duration;
+
+use bytes::Bytes;
+use uuid::Uuid;
+
+use crate::cluster::metadata::{Keyspace, Metadata, Peer, Strategy, Table};
+use crate::cluster::node::NodeAddr;
+use crate::cluster::NodeConfig;
+use crate::cluster::ClusterState;
+use crate::errors::{RequestAttemptError, RequestError};
+use crate::frame::response::result::TableSpec;
+use crate::frame::types::Consistency;
+use crate::policies::host_filter::HostFilter;
+use crate::policies::retry::RequestInfo;
+use crate::policies::speculative_execution::{self, SpeculativeExecutionPolicy};
+use crate::routing::{Shard, ShardAwarePortRange, Sharder};
+use crate::routing::Token;
+
+// ---------------------------------------------------------------------------
+// Event sink, pause points, clock override
+// ---------------------------------------------------------------------------
+
+pub type EventSink = dyn Fn(&'static str, u64, u64) + Send + Sync;
+pub type PauseFn = dyn Fn(&'static str) + Send + Sync;
+pub type AsyncPauseFn = dyn Fn(&'static str) -> Option<Duration> + Send + Sync;
+pub type ClockFn = dyn Fn() -> Result<Duration, ()> + Send + Sync;
+
+static SINK_ON: AtomicBool = AtomicBool::new(false);
+static SINK: RwLock<Option<Arc<EventSink>>> = RwLock::new(None);
+static PAUSE_ON: AtomicBool = AtomicBool::new(false);
+static PAUSE: RwLock<Option<Arc<PauseFn>>> = RwLock::new(None);
+static APAUSE_ON: AtomicBool = AtomicBool::new(false);
+static APAUSE: RwLock<Option<Arc<AsyncPauseFn>>> = RwLock::new(None);
+static CLOCK_ON: AtomicBool = AtomicBool::new(false);
+static CLOCK: RwLock<Option<Arc<ClockFn>>> = RwLock::new(None);
+
+pub fn set_event_sink(f: Option<Arc<EventSink>>) {
+    let on = f.is_some();
+    *SINK.write().unwrap() = f;
+    SINK_ON.store(on, Ordering::SeqCst);
+}
+
+/// Reports an internal event to the harness (no-op unless a sink is installed).
+#[inline]
+pub fn emit(site: &'static str, a: u64, b: u64) {
+    if SINK_ON.load(Ordering::Relaxed) {
+        let f = SINK.read().unwrap().clone();
+        if let Some(f) = f {
+            f(site, a, b)
+        }
+    }
+}
+
+pub fn set_pause(f: Option<Arc<PauseFn>>) {
+    let on = f.is_some();
+    *PAUSE.write().unwrap() = f;
+    PAUSE_ON.store(on, Ordering::SeqCst);
+}
+
+/// Synchronous pause point (a legal preemption point between two critical
+/// sections). No-op unless the harness installed a policy.
+#[inline]
+pub fn pause(site: &'static str) {
+    if PAUSE_ON.load(Ordering::Relaxed) {
+        let f = PAUSE.read().unwrap().clone();
+        if let Some(f) = f {
+            f(site)
+        }
+    }
+}
+
+pub fn set_async_pause(f: Option<Arc<AsyncPauseFn>>) {
+    let on = f.is_some();
+    *APAUSE.write().unwrap() = f;
+    APAUSE_ON.store(on, Ordering::SeqCst);
+}
+
+/// Asynchronous pause point; only placed where the code already awaits.
+/// `Some(0)` yields once, `Some(d)` sleeps, `None` does nothing.
+#[inline]
+pub async fn pause_async(site: &'static str) {
+    if APAUSE_ON.load(Ordering::Relaxed) {
+        let f = APAUSE.read().unwrap().clone();
+        if let Some(d) = f.and_then(|f| f(site)) {
+            if d.is_zero() {
+                tokio::task::yield_now().await;
+            } else {
+                tokio::time::sleep(d).await;
+            }
+        }
+    }
+}
+
+pub fn set_clock(f: Option<Arc<ClockFn>>) {
+    let on = f.is_some();
+    *CLOCK.write().unwrap() = f;
+    CLOCK_ON.store(on, Ordering::SeqCst);
+}
+
+/// Lets the harness replace the reading of the system clock (time since the
+/// UNIX epoch, or `Err` for "before the epoch").
+#[inline]
+pub fn clock<E>(real: Result<Duration, E>) -> Result<Duration, ()> {
+    if CLOCK_ON.load(Ordering::Relaxed) {
+        let f = CLOCK.read().unwrap().clone();
+        if let Some(f) = f {
+            return f();
+        }
+    }
+    real.map_err(|_| ())
+}
+
+// ---------------------------------------------------------------------------
+// Retry: constructor of the non-exhaustive RequestInfo
+// ---------------------------------------------------------------------------
+
+pub fn request_info<'a>(
+    error: &'a RequestAttemptError,
+    is_idempotent: bool,
+    consistency: Consistency,
+) -> RequestInfo<'a> {
+    RequestInfo {
+        error,
+        is_idempotent,
+        consistency,
+    }
+}
+
+// ---------------------------------------------------------------------------
+// Sharding: pass-through to the crate-private `*_from_range` variants
+// ---------------------------------------------------------------------------
+
+pub fn draw_source_port_for_shard_from_range(
+    sharder: &Sharder,
+    shard: Shard,
+    range: &ShardAwarePortRange,
+) -> Option<u16> {
+    sharder.draw_source_port_for_shard_from_range(shard, range)
+}
+
+pub fn iter_source_ports_for_shard_from_range(
+    sharder: &Sharder,
+    shard: Shard,
+    range: &ShardAwarePortRange,
+) -> impl Iterator<Item = u16> + use<> {
+    sharder.iter_source_ports_for_shard_from_range(shard, range)
+}
+
+// ---------------------------------------------------------------------------
+// Speculative execution: the real `execute` loop with a real `Context`
+// ---------------------------------------------------------------------------
+
+pub async fn speculative_execute<QueryFut, T>(
+    policy: &dyn SpeculativeExecutionPolicy,
+    query_runner_generator: impl FnMut(bool) -> QueryFut,
+) -> Result<T, RequestError>
+where
+    QueryFut: Future<Output = Option<Result<T, RequestError>>>,
+{
+    let context = speculative_execution::Context {
+        #[cfg(feature = "metrics")]
+        metrics: Arc::new(crate::observability::metrics::Metrics::new()),
+    };
+    speculative_execution::execute(policy, &context, query_runner_generator).await
+}
+
+// ---------------------------------------------------------------------------
+// merge_channel endpoints
+// ---------------------------------------------------------------------------
+
+pub mod merge_channel {
+    use crate::cluster::metadata::merge_channel as mc;
+
+    pub struct Sender<T>(mc::Sender<T>);
+    pub struct Receiver<T>(mc::Receiver<T>);
+
+    pub fn channel<T>() -> (Sender<T>, Receiver<T>) {
+        let (tx, rx) = mc::merge_channel();
+        (Sender(tx), Receiver(rx))
+    }
+
+    impl<T> Sender<T> {
+        /// `Err(())` iff the channel reports the receiver as gone.
+        pub fn modify(&mut self, f: impl FnOnce(&mut Option<T>)) -> Result<(), ()> {
+            self.0.modify(f).map_err(|_| ())
+        }
+    }
+
+    impl<T> Receiver<T> {
+        pub async fn recv(&mut self) -> Option<T> {
+            self.0.recv().await
+        }
+    }
+}
+
+// ---------------------------------------------------------------------------
+// ResponseHandlerMap probe (defined next to the private type)
+// ---------------------------------------------------------------------------
+
+pub use crate::network::verif::{HandlerMapProbe, LookupOutcome};
+
+// ---------------------------------------------------------------------------
+// Cluster state built from an in-memory topology, through the real
+// `ClusterState::new` / `new_updated` / `update_tablets`.
+// ---------------------------------------------------------------------------
+
+#[derive(Clone, Debug)]
+pub struct PeerDesc {
+    pub host_id: Uuid,
+    pub address: SocketAddr,
+    pub datacenter: Option<String>,
+    pub rack: Option<String>,
+    pub tokens: Vec<i64>,
+}
+
+#[derive(Clone, Debug)]
+pub struct KeyspaceDesc {
+    pub name: String,
+    pub strategy: Strategy,
+    pub tablet_based: bool,
+    pub tables: Vec<String>,
+}
+
+#[derive(Clone, Debug, PartialEq, Eq)]
+pub struct TabletDump {
+    pub first_token: i64,
+    pub last_token: i64,
+    pub replicas: Vec<(Uuid, Shard)>,
+    pub has_unresolved: bool,
+}
+
+pub fn make_peer(d: &PeerDesc) -> Peer {
+    Peer {
+        host_id: d.host_id,
+        address: NodeAddr::Translatable(d.address),
+        tokens: d.tokens.iter().map(|t| Token::new(*t)).collect(),
+        datacenter: d.datacenter.clone(),
+        rack: d.rack.clone(),
+    }
+}
+
+fn make_metadata(peers: &[PeerDesc], keyspaces: &[KeyspaceDesc]) -> Metadata {
+    Metadata {
+        peers: peers.iter().map(make_peer).collect(),
+        keyspaces: keyspaces
+            .iter()
+            .map(|k| {
+                let tables = k
+                    .tables
+                    .iter()
+                    .map(|t| {
+                        (
+                            t.clone(),
+                            Table {
+                                columns: HashMap::new(),
+                                partition_key: Vec::new(),
+                                clustering_key: Vec::new(),
+                                partitioner: None,
+                                pk_column_specs: Vec::new(),
+                            },
+                        )
+                    })
+                    .collect();
+                (
+                    k.name.clone(),
+                    Ok(Keyspace {
+                        strategy: k.strategy.clone(),
+                        durable_writes: true,
+                        tablet_based: k.tablet_based,
+                        tables,
+                        views: HashMap::new(),
+                        user_defined_types: HashMap::new(),
+                    }),
+                )
+            })
+            .collect(),
+        cluster_name: Some("verif".to_owned()),
+        client_routes: None,
+    }
+}
+
+pub struct ClusterProbe {
+    state: ClusterState,
+    node_config: NodeConfig,
+    host_filter: Option<Arc<dyn HostFilter>>,
+}
+
+impl ClusterProbe {
+    /// Must be called within a tokio runtime (enabled nodes get real pools).
+    pub async fn new(
+        peers: &[PeerDesc],
+        keyspaces: &[KeyspaceDesc],
+        host_filter: Option<Arc<dyn HostFilter>>,
+    ) -> Self {
+        let (connectivity_events_sender, _) = tokio::sync::mpsc::unbounded_channel();
+        let node_config = NodeConfig {
+            pool_config: crate::network::PoolConfig {
+                connection_config: crate::network::verif::default_connection_config(),
+                pool_size: Default::default(),
+                can_use_shard_aware_port: true,
+                reconnect_policy: Arc::new(
+                    crate::policies::reconnect::ExponentialReconnectPolicy::new(),
+                ),
+            },
+            used_keyspace: None,
+            connectivity_events_sender,
+            metrics: crate::observability::metrics::Metrics::new(),
+        };
+        let state = ClusterState::new(
+            make_metadata(peers, keyspaces),
+            &node_config,
+            host_filter.as_deref(),
+        )
+        .await;
+        Self {
+            state,
+            node_config,
+            host_filter,
+        }
+    }
+
+    pub fn state(&self) -> &ClusterState {
+        &self.state
+    }
+
+    /// A full metadata refresh (`ClusterState::new_updated`), including tablet
+    /// maintenance against the previous node set.
+    pub async fn refresh(&mut self, peers: &[PeerDesc], keyspaces: &[KeyspaceDesc]) {
+        self.state = self
+            .state
+            .new_updated(
+                make_metadata(peers, keyspaces),
+                &self.node_config,
+                self.host_filter.as_deref(),
+            )
+            .await;
+    }
+
+    /// Feeds one tablet as it arrives in a response's custom payload.
+    /// `Ok(false)`: no tablet entry in the payload; `Err`: the payload was refused.
+    pub fn add_tablet_from_payload(
+        &mut self,
+        keyspace: &str,
+        table: &str,
+        payload: &HashMap<String, Bytes>,
+    ) -> Result<bool, String> {
+        self.state.verif_add_tablet_from_payload(keyspace, table, payload)
+    }
+
+    pub fn tablet_ranges(&self, keyspace: &str, table: &str) -> Option<Vec<TabletDump>> {
+        let spec = TableSpec::borrowed(keyspace, table);
+        self.state.verif_tablet_ranges(&spec)
+    }
+}
